@@ -278,8 +278,13 @@ def finish(ctx: Ctx, mod):
     if real and hasattr(mod, "replay") and os.environ.get("VERIF_NO_RECHECK") != "1":
         v = real[0][0]
         try:
-            r1 = canon(mod.replay(v["case"]))
-            r2 = canon(mod.replay(v["case"]))
+            import re
+
+            def _scrub(x):  # scratch directory names differ between runs by construction
+                return json.loads(re.sub(r"/dev/shm/gwf-mc-[A-Za-z0-9_-]+(/p\d+_\d+)?", "<scratch>", json.dumps(canon(x))))
+
+            r1 = _scrub(mod.replay(v["case"]))
+            r2 = _scrub(mod.replay(v["case"]))
         except Exception:
             print("HARNESS-ERROR: replay of violating case raised:\n" + traceback.format_exc())
             return 2
